@@ -76,6 +76,10 @@ def run(chk, tier):
         if r.get("panic"):
             what = "host panic: %s" % r["panic"][:200]
         elif j["pre"] == "idleint":
+            if r["outcome"] == "exception" and str(r.get("err", "")).startswith("SyntaxError"):
+                # the scenario text did not compile: nothing ran, so the property says nothing about this execution. The scenario
+                # texts are valid programs (a rejection is a C01 matter and is reported there); do not guess here.
+                raise Inconclusive("scenario %d is rejected by the compiler (%s): the idle-interrupt expectation does not apply" % (j["id"], r["err"][:160]))
             if r["outcome"] != "interrupted" or r["probes"] != 0 or r["log"]:
                 what = "Interrupt while idle: the next call must fail at once (outcome %s, %d probes ran, log %s)" % (r["outcome"], r["probes"], r["log"][:5])
             elif r.get("int_val") != "idle-injected":
